@@ -24,6 +24,7 @@ func runC13(c *core.Ctx) {
 	c.RuleDoc("R13.6", "an Open that proceeds has a reason")
 	c.RuleDoc("R13.9", "the context behind Done() is the reader's own")
 	c.RuleDoc("R13.7", "background writers always report")
+	c.RuleDoc("R13.11", "the buffer pool never provisions more buffers than its channel holds (Done and every Open return)")
 	c.RuleDoc("R13.10", "io.ErrUnexpectedEOF (a truncated stream) is never turned into io.EOF or success")
 	c.RuleDoc("R13.8", "pool buffers are returned on every continuing path (a leaked buffer blocks the reader, and with it Done and every pending Open, forever)")
 	for _, p := range c.Progs {
@@ -41,6 +42,7 @@ func runC13(c *core.Ctx) {
 		r13Reason(c, p, sh)
 		r12Buffers(c, p, sh, "R13.8")
 		r13Truncation(c, p, "R13.10", pkgFuncs(p, "tar"))
+		r12PoolBound(c, p, "R13.11")
 	}
 	c.Floor("R13.1", 1)
 	c.Floor("R13.2", 1)
